@@ -34,7 +34,9 @@ type Fabric struct {
 	notifySeq int
 	Wire      []*WireMsg
 	Resets    map[string]string // stream id -> why it was reset (first reason)
-	handler   *gsmsgv2.MessageHandler
+	// LostInFlight counts resets that discarded bytes already accepted from the writer.
+	LostInFlight int
+	handler      *gsmsgv2.MessageHandler
 	// Partitioned pairs: every connect and write fails.
 	Partition map[string]bool
 	// GateNewStream makes NewStream a gate of its own.
@@ -403,6 +405,12 @@ func (s *SimStream) signal() {
 	}
 }
 
+func (f *Fabric) noteLost() {
+	f.mu.Lock()
+	f.LostInFlight++
+	f.mu.Unlock()
+}
+
 func (f *Fabric) noteReset(id, why string) {
 	f.mu.Lock()
 	if f.Resets == nil {
@@ -425,6 +433,13 @@ func (s *SimStream) doReset(why string) {
 	s.mu.Lock()
 	if !s.reset {
 		s.reset = true
+		for _, b := range s.inflight {
+			if b != nil {
+				// bytes the writer was told had been written are gone: a message loss
+				s.f.noteLost()
+				break
+			}
+		}
 		s.inflight = nil
 		close(s.resetCh)
 		s.f.noteReset(s.id, why)
